@@ -46,7 +46,7 @@ pub fn replay_flow_scripts(o: &Opts, t: &mut Tracer) -> (u64, u64) {
             connclose: r["connclose"].as_bool().unwrap(),
             despite: r["despite"].as_bool().unwrap(),
             framing: r["framing"].as_str().unwrap().into(),
-            conn_other: None,
+            conn_other: None, expect_extra: false
         };
         let sv = c["sv"].as_str().unwrap();
         let vsel = li + o.seed as usize;
@@ -117,7 +117,7 @@ pub fn random_rq(rng: &mut StdRng) -> RqCfg {
         connclose: rng.gen_bool(0.3),
         despite,
         framing: framing.into(),
-        conn_other: if rng.gen_bool(0.2) { Some("keep-alive") } else { None },
+        conn_other: if rng.gen_bool(0.2) { Some("keep-alive") } else { None }, expect_extra: rng.gen_bool(0.2)
     }
 }
 
@@ -350,7 +350,7 @@ pub fn c10(o: &Opts, t: &mut Tracer) -> Value {
     let mut n = 0u64;
     let methods = ["GET", "HEAD", "POST", "PUT", "CONNECT"];
     let handshakes = ["none", "100", "timeout", "late100", "refuseBare", "refuseFields", "refuseFieldsClose", "stray100"];
-    let statuses = [200u16, 204, 302, 304, 403];
+    let statuses = [200u16, 204, 302, 304, 403, 205, 201, 500];
     let framings = [("absent", "absent"), ("zero", "absent"), ("n", "absent"), ("absent", "chunked"), ("n", "chunked")];
     let conns = ["absent", "close", "keepalive", "two"];
     for ver10 in [false, true] {
@@ -375,7 +375,7 @@ pub fn c10(o: &Opts, t: &mut Tracer) -> Value {
                                     let rq = RqCfg {
                                         method: m.to_string(), ver10, expect: *hs != "none" && *hs != "stray100", connclose: *rconn == "close" || *rconn == "two",
                                         despite: false, framing: if body_m { ["default", "cl2", "chunked", "cl0"][((n / 3) % 4) as usize].into() } else { "default".into() },
-                                        conn_other: if *rconn == "keepalive" || *rconn == "two" { Some("keep-alive") } else { None },
+                                        conn_other: if *rconn == "keepalive" || *rconn == "two" { Some("keep-alive") } else { None }, expect_extra: false
                                     };
                                     let early = match *hs {
                                         // "stray100": an interim 100 nobody asked for is handed to the caller before the final response
@@ -413,7 +413,7 @@ pub fn c10(o: &Opts, t: &mut Tracer) -> Value {
                     } else {
                         format!("HTTP/1.1 {} Moved\r\n{}Location: /next\r\n{}", status, conn, tail)
                     };
-                    let rq = RqCfg { method: "GET".into(), ver10: false, expect: false, connclose: false, despite: false, framing: "default".into(), conn_other: None };
+                    let rq = RqCfg { method: "GET".into(), ver10: false, expect: false, connclose: false, despite: false, framing: "default".into(), conn_other: None, expect_extra: false };
                     let mut sim = match Sim::new(t, rq, None, k, "c10-truncated-3xx") {
                         Some(s) => s,
                         None => continue,
@@ -446,7 +446,7 @@ pub fn c11(o: &Opts, t: &mut Tracer) -> Value {
     for round in 0..rounds {
         for ver10 in [false, true] {
             for (ki, kind) in kinds.iter().enumerate() {
-                for variant in 0..6usize {
+                for variant in 0..8usize {
                     let early = EarlyMsg::new(kind, variant);
                     let total = early.bytes.len();
                     // the caller looks at every prefix length (cumulatively re-presented), then both later paths
@@ -465,7 +465,8 @@ pub fn c11(o: &Opts, t: &mut Tracer) -> Value {
                         }
                         let connclose = (give_up_at + variant + round) % 3 == 0;
                         let rq = RqCfg { method: method.into(), ver10, expect: true, connclose, despite,
-                                         framing: ["default", "cl2", "chunked", "cl0"][(variant + give_up_at / 2 + round) % 4].into(), conn_other: None };
+                                         framing: ["default", "cl2", "chunked", "cl0"][(variant + give_up_at / 2 + round) % 4].into(),
+                                         conn_other: if (give_up_at + variant) % 4 == 1 { Some("keep-alive") } else { None }, expect_extra: (give_up_at + 2 * variant) % 5 == 2 };
                         let fin = random_fin(&mut rng);
                         let mut sim = match Sim::new(t, rq, Some(early.clone()), give_up_at, "c11") {
                             Some(s) => s,
